@@ -246,3 +246,40 @@ func init() {
 		x.Printf("Definition %s : list string :=\n  [%s].\n\n", coqName(it), strings.Join(parts, "; "))
 	}
 }
+
+// kind "c01_ifassign": the first `if <cond> { <lhs> = <rhs> }` statement (no else, single assignment) at
+// the top level of a function whose condition mentions the identifier given in args.ident, as source
+// text [cond; assignment]:
+//
+//	{"kind": "c01_ifassign", "file": "copy.go", "func": "Copy", "coq": "copy_blank_dstref_rule", "args": {"ident": "dstRef"}}
+//
+// emits  Definition copy_blank_dstref_rule : list string := ["dstRef == ''"; "dstRef = srcRef"].
+func init() {
+	kinds["c01_ifassign"] = func(x *Ctx, it Item) {
+		fd := findFunc(x.File(it.File), it.Recv, it.Func)
+		what := it.File + ":" + it.Func
+		if fd == nil || fd.Body == nil {
+			fail("%s: function not found", what)
+		}
+		ident, _ := it.Args["ident"].(string)
+		for _, st := range fd.Body.List {
+			is, ok := st.(*ast.IfStmt)
+			if !ok || is.Else != nil || is.Init != nil || len(is.Body.List) != 1 {
+				continue
+			}
+			as, ok := is.Body.List[0].(*ast.AssignStmt)
+			if !ok || as.Tok != token.ASSIGN {
+				continue
+			}
+			cond := c01Print(x, is.Cond)
+			if !strings.Contains(cond, ident) {
+				continue
+			}
+			q := func(t string) string { return "\"" + strings.ReplaceAll(t, "\"", "'") + "\"%string" }
+			x.Printf("(* %s: if %s { %s } *)\n", what, cond, c01Print(x, as))
+			x.Printf("Definition %s : list string :=\n  [%s; %s].\n\n", coqName(it), q(cond), q(c01Print(x, as)))
+			return
+		}
+		fail("%s: no `if ... %s ... { x = y }` statement", what, ident)
+	}
+}
